@@ -189,6 +189,11 @@ def call(ex, st, base, attr, recv, args, kwargs, node):
                 raise _U("encode args")
             # UTF-8: strings are sequences of Unicode scalar values (no lone surrogates:
             # DESIGN 2.6), for which encode() succeeds
+            lit = z3.simplify(base.t)
+            if z3.is_string_value(lit) and all(ord(ch) < 128 for ch in lit.as_string()) and "\\u{" not in lit.as_string():
+                # a literal ASCII string (module constants such as MAGIC = b"Obj" + chr(1).encode()): its bytes
+                yield st, S.mk_bytes(lit.as_string().encode("ascii"))
+                return
             yield st, eng.spec_apply("spec.core", "utf8", [base])
             return
         if attr in ("split", "rsplit"):
